@@ -23,7 +23,7 @@ PROP = {
              "optionally one UpdateParams or token registration (RegisterNewTokenAndSetTokenFeeder: new token / existing token with a new asset id), one stake increase (validator power change) and one undelegation below MinSelfDelegation (removal-only validator update) that dogfood turns into validator updates at the next epoch end). The history is "
              "run once without stopping; then for EVERY height r the multistore is rolled back to version r, the oracle's process-local state is "
              "dropped (verif hook) and blocks r+1.. are re-executed: the restarted twin. One extra twin per history is restarted three times. "
-             "12 directed histories come first: two reproducing the remaining known findings (finalized round reopened; reverted params update) and nine regression scenarios (repaired defects, removal-only validator update, token registrations; untagged). Observed per block also: GetSpecifiedAssetsPrice of every registered asset id. One history runs on a testnet-type chain id and has extra twins that answer one BaseApp.Simulate(MsgUpdateParams) after their restart. distinct = distinct sha1 of the Coq case; all cases count as non-trivial "
+             "Every sixth generated history runs on legal non-default params where feeder 2's rule demands the deterministic source AND a non-deterministic one (messages carry both parts, validators disagree on the non-deterministic price). 12 directed histories come first: two reproducing the remaining known findings (finalized round reopened; reverted params update) and ten regression scenarios (repaired defects, removal-only validator update, token registrations, a rule with a non-deterministic source; untagged). Observed per block also: GetSpecifiedAssetsPrice of every registered asset id. One history runs on a testnet-type chain id and has extra twins that answer one BaseApp.Simulate(MsgUpdateParams) after their restart. distinct = distinct sha1 of the Coq case; all cases count as non-trivial "
              "(every case re-executes at least one block on a rebuilt aggregator)"),
     "explanation": ("Main theorem C14_restart_safe_iff: for all never-stopped histories over valid params, a block boundary (outside the narrow 'band' of feeders that just left their window with items still in the replay window; C14_restart_safe_iff_weak narrows the band further: such items are allowed if the replay starts at a validator-set change, if they lie in one block, or if those before the last item block carry at most the 2/3 threshold power) is restart-safe iff every round still inside its window is open or older than the last validator-set change; observational corollary C14_restart_safe; refutation C14_restart_refuted_final for the remaining defect class. Coq theorems about an executable model of the oracle's in-memory state, of what EndBlock persists and of "
                     "recacheAggregatorContext, for all histories; the model is tied to the code by differential execution (codes, store "
@@ -38,7 +38,7 @@ PROP = {
         "verif hooks x/oracle/**/zz_verif_c14_*.go (read-only dumps + singleton reset) and the harness' restart simulation: rootmulti.RollbackToVersion(r) "
         "on the same MemDB + dropping the oracle package singletons and re-arming the BeginBlock sync.Once; no OS process is actually killed",
         "DeliverTx is emulated: CheckAndIncreaseNonce (ante) in its own cache context, then the real msg server in a second cache context; signatures, gas and tx size decorators are not run (C13)",
-        "not modelled: params updates (recent-params window), non-deterministic sources, more than one source per message, CheckTx copy (agcCheckTx)",
+        "not modelled: params updates (recent-params window), non-deterministic sources, more than one source per message, CheckTx copy (agcCheckTx); histories on params with a non-deterministic source (every sixth generated one + the directed reg-ns-source) are therefore checked by the property monitors only (c_modelled = false)",
         "the normalised memory dump drops the filter's nonce sets (unobservable: theorem C14_lockstep) and closed rounds of ended feeders",
     ],
     "assumptions": [
